@@ -159,6 +159,29 @@ func c15Cases() []chainCase {
 	// fee of a message type is its base fee times ITS entry, wherever the entry stands in the list
 	fmVal := `{"fee_multiplier":[{"key":"stake_validator","multiplier":"3"},{"key":"send","multiplier":"5"},{"key":"app_stake","multiplier":"2"}],"default":"1"}`
 	fmPre := []BlockSpec{blk(tx("gov_param", "G", "from", "G", "key", "auth/FeeMultipliers", "value", fmVal))}
+	// the list takes effect for the transactions that FOLLOW the change in the same block
+	{
+		change := tx("gov_param", "G", "from", "G", "key", "auth/FeeMultipliers", "value", fmVal)
+		for _, fee := range []string{"10000", "49999", "50000"} {
+			fee := fee
+			t := tx("send", "A1", "to", "A2", "amount", "7")
+			t.Fee = fee
+			cases = append(cases, chainCase{Name: "fee-multipliers/changed-earlier-in-the-same-block/send-declared-" + fee, Class: "fee-multiplier", Env: env, Want: []string{"balances"},
+				Ref: []BlockSpec{blk(change)}, Subject: []BlockSpec{blk(change, t)},
+				Oracle: func(r, s JobResult) (string, string) {
+					if r.Blocks[0].Txs[0].Code != 0 {
+						return "harness:feemult", "the fee-multiplier change of the scenario was refused"
+					}
+					d := balanceDelta(r, s)
+					mustPass := fee == "50000"
+					passed := lastTx(s).Code == 0
+					if passed != mustPass || (!mustPass && len(d) != 0) {
+						return "fee-multiplier-not-applied", fmt.Sprintf("governance sets the send multiplier to 5 (required fee 50000) and a send declaring %s follows in the same block: result code %d, balance changes %s", fee, lastTx(s).Code, deltaStr(d))
+					}
+					return "", ""
+				}})
+		}
+	}
 	for _, x := range []struct {
 		name   string
 		t      TxSpec
